@@ -74,9 +74,14 @@ def fix(x):
 class Rig:
     """Builds the real doer forest of a config with per-leaf scripts and runs it."""
 
-    def __init__(self, cfg, script, q=0.25, flavours=None, rng=None):
+    def __init__(self, cfg, script, q=0.25, flavours=None, rng=None, release=False):
         from hio.base import doing
         self.doing = doing
+        # release=True: a class-based doer that is closed by a remove() call asks, from inside its exit(), for the removal of
+        # the other doers named in that same call ("an owner releasing its helpers").  They are already out of the
+        # scheduler's membership then, so the nested call must change nothing: the model's behaviour is unchanged.
+        self.release = release
+        self.removing = None
         self.cfg = cfg
         self.q = q
         self.log = []
@@ -161,12 +166,23 @@ class Rig:
             if o == "e":
                 s.extend([self.objs[n] for n in a])
             elif o == "m":
-                s.remove([self.objs[n] for n in a])
+                self.removing = (s, list(a))
+                try:
+                    s.remove([self.objs[n] for n in a])
+                finally:
+                    self.removing = None
         except BaseException:
             self.log[ri]["exc"] = True
             raise
         self.ev("members", self.sched_of[d], 0, "", [self.name_of(x) for x in s.doers])
         return ("y", 0)
+
+    def on_exit(self, d):
+        if self.release and self.removing is not None and d in self.removing[1]:
+            s, names = self.removing
+            others = [self.objs[n] for n in names if n != d]
+            if others:
+                s.remove(others)
 
     def name_of(self, obj):
         for n, o in self.objs.items():
@@ -219,6 +235,7 @@ class Rig:
 
                 def exit(self):
                     rig.ev("exit", d)
+                    rig.on_exit(d)
             return L(tock=0.0)
         if fl == "gen":
             class Gn(doing.Doer):
@@ -252,6 +269,7 @@ class Rig:
 
                 def exit(self):
                     rig.ev("exit", d)
+                    rig.on_exit(d)
             return Gn(tock=0.0)
 
         def body(tymth, tock=0.0, **opts):
@@ -575,8 +593,8 @@ def same_run(r1, r2):
     return out
 
 
-def replay(cfg, beh, q=0.25, seed=0, mode="do", flavours=None):
-    rig = Rig(cfg, beh["script"], q=q, rng=random.Random(seed), flavours=flavours)
+def replay(cfg, beh, q=0.25, seed=0, mode="do", flavours=None, release=False):
+    rig = Rig(cfg, beh["script"], q=q, rng=random.Random(seed), flavours=flavours, release=release)
     return rig.run(mode)
 
 
@@ -645,9 +663,11 @@ def check_replays(ctx, prop, cfg, behs, keys=None, scales=None, modes=("do",), l
     gc.freeze()     # the behaviour lists are big: keep them out of the per-replay gc.collect()
     for i, b in enumerate(behs):
         reals = {}
-        for mode in modes:
+        multi = prop == "C06" and any(e["k"] == "recur" and e["o"] == "m" and len(set(e["a"])) > 1 for e in b["log"])
+        for mode in (list(modes) + ["do+release"] if multi else modes):
             q = (scales or SCALES)[(i + ctx.seed) % len(scales or SCALES)]
-            real = replay(cfg, b, q=q, seed=ctx.seed * 1000003 + i, mode=mode)
+            real = replay(cfg, b, q=q, seed=ctx.seed * 1000003 + i, mode="do" if mode == "do+release" else mode,
+                          release=(mode == "do+release"))
             reals[mode] = real
             cmpd = compare(cfg, b, real)
             ctx.traces += 1
